@@ -57,6 +57,7 @@ func runC10(c *Ctx) {
 	c.Rule("C10.R6", "WIRE", "a rule's rewrite is the parser's result for its own value (no cache or shared object in between)", 1)
 	c.Rule("C10.R5", "EFF", "parser writes no shared memory; handler table written only by its initialiser", 2)
 
+	importRules(c, runC04, map[string]string{"C04.R13": "C10.R11"}, map[string]string{"C10.R11": "the value handed to the $dnsrewrite parser is the text written in the rule: the option splitter keeps every byte of it (shared with C04.R13)"})
 	a := &anchors{c: c, rule: "C10.R1"}
 	ldr := a.fn("rules", "loadDNSRewrite")
 	rwT := c.P.Type("rules", "DNSRewrite")
